@@ -867,3 +867,169 @@ def dig_judge_one(o, sc):
 
 
 dig_judge = no_panic_judge(dig_judge_one)
+
+
+# ------------------------------------------------------------------ C20 layout (relational: variant vs base)
+
+LAYOUT_SIGNALS = [("in", "A", 8, 0), ("in", "B", 8, 0), ("out", "Y", 8)]
+LAYOUT_HEADER = "A B Y"
+
+# programs as token lists (one list per line): every rendering below has the same token sequence by construction
+LAYOUT_PROGRAMS = {
+    "control": [
+        ["let", "a", "=", "10", ";"],
+        ["loop", "(", "i", ",", "3", ")"],
+        ["(", "i", "+", "a", ")", "1", "X"],
+        ["end", "loop"],
+        ["bits", "(", "2", ",", "2", ")", "X"],
+        ["31", "1", "15"],
+        ["repeat", "(", "2", ")", "(", "n", "*", "2", ")", "0", "X"],
+        ["while", "(", "a", "<", "12", ")"],
+        ["let", "a", "=", "a", "+", "1", ";"],
+        ["1", "(", "a", ")", "X"],
+        ["end", "while"],
+        ["resetRandom", ";"],
+        ["0", "Z", "X"],
+    ],
+    "calls": [
+        ["let", "a", "=", "6", ";"],
+        ["(", "ite", "(", "a", ">", "5", ",", "7", ",", "8", ")", ")", "(", "signExt", "(", "4", ",", "15", ")", "&", "255", ")", "X"],
+        ["(", "1", "<<", "2", ")", "(", "a", ">=", "3", ")", "(", "a", "!=", "3", ")"],
+        ["(", "~", "a", "&", "7", ")", "(", "!", "a", ")", "(", "-", "a", "+", "20", ")"],
+        ["(", "a", "%", "4", ")", "(", "a", "/", "4", ")", "(", "a", "^", "1", ")"],
+        ["(", "a", "|", "1", ")", "(", "a", "<=", "3", ")", "(", "a", ">>", "1", ")"],
+        ["(", "a", "=", "6", ")", "(", "a", "<", "7", ")", "(", "0", "-", "a", "*", "2", "+", "100", ")"],
+        ["(", "ite", "(", "0", ",", "1", ",", "ite", "(", "1", ",", "2", ",", "3", ")", ")", ")", "0", "0"],
+    ],
+    "literals": [
+        ["0", "1", "2"],
+        ["10", "255", "128"],
+        ["let", "z", "=", "0", ";"],
+        ["(", "z", "+", "16", ")", "(", "100", "-", "64", ")", "8"],
+        ["bits", "(", "8", ",", "170", ")"],
+        ["repeat", "(", "3", ")", "7", "0", "(", "n", "+", "0", ")"],
+    ],
+    "rejected-row": [
+        ["1", "1", "1"],
+        ["1", "1"],
+    ],
+    "rejected-function": [
+        ["(", "nosuch", "(", "1", ")", ")", "0", "0"],
+    ],
+    "rejected-let": [
+        ["let", "a", "5", ";"],
+        ["0", "0", "0"],
+    ],
+}
+
+
+def _needs_gap(a, b):
+    w = lambda c: c.isalnum() or c == "_"
+    if w(a[-1]) and w(b[0]):
+        return True
+    # operator characters that would merge into another token: << >> <= >= !=
+    return (a[-1] + b[0]) in ("<<", ">>", "<=", ">=", "!=") or (a[-1] in "<>!=" and b[0] in "<>=")
+
+
+def layout_render(lines, style="plain", eol="\n", trailing="", comment=None, header=LAYOUT_HEADER, last_eol=True):
+    """style: plain (one space), min (only where tokens would merge), wide, tabs, mixed, callgap (space between a name
+    and an opening parenthesis too, as `plain` does), cr (carriage returns as blank space inside lines)."""
+    sep = {"plain": " ", "wide": "   ", "tabs": "\t", "mixed": " \t ", "cr": " \r "}.get(style, " ")
+    out = [header]
+    for toks in lines:
+        if toks is None or isinstance(toks, str):
+            out.append(toks or "")
+            continue
+        s = ""
+        for k, t in enumerate(toks):
+            if k > 0:
+                if style == "min":
+                    s += " " if _needs_gap(toks[k - 1], t) else ""
+                else:
+                    s += sep
+            s += t
+        if style in ("wide", "mixed"):
+            s = "  " + s
+        s += trailing
+        if comment is not None:
+            s += comment
+        out.append(s)
+    return eol.join(out) + (eol if last_eol else "")
+
+
+def _radix(tok, how):
+    if not tok.isdigit():
+        return tok
+    n = int(tok)
+    return {"hex": "0x%x" % n, "HEX": "0X%X" % n, "hex0": "0x00%x" % n, "bin": "0b%s" % bin(n)[2:], "BIN": "0B%s" % bin(n)[2:],
+            "bin0": "0b0%s" % bin(n)[2:], "oct": "0%o" % n, "dec": tok}[how]
+
+
+def layout_battery():
+    b = []
+
+    def sc(name, base_src, var_src, note, line_map=None):
+        return Scenario(var_src, LAYOUT_SIGNALS, default_answer=[0], max_rows=200,
+                        expect={"base": base_src, "line_map": line_map}, note="%s: %s" % (name, note))
+    for name, lines in LAYOUT_PROGRAMS.items():
+        base = layout_render(lines)
+        for style in ("min", "wide", "tabs", "mixed", "cr"):
+            b.append(sc(name, base, layout_render(lines, style), "blank space style '%s'" % style))
+        b.append(sc(name, base, layout_render(lines, trailing=" \t"), "trailing blanks"))
+        b.append(sc(name, base, layout_render(lines, eol="\r\n"), "CR before every LF"))
+        b.append(sc(name, base, layout_render(lines, comment=" # note"), "comment appended to every line"))
+        b.append(sc(name, base, layout_render(lines, comment="#x#y"), "comment appended without a blank"))
+        b.append(sc(name, base, layout_render(lines, last_eol=False), "no newline at the end")
+                 if name in ("literals", "calls") else
+                 sc(name, base, layout_render(lines, comment="\t#"), "empty comment appended"))
+        # lines inserted after the header: blank, blank-with-spaces, single comment, comment block
+        for what, ins in (("blank lines", ["", ""]), ("whitespace-only line", [" \t "]), ("comment line", ["# one"]),
+                          ("comment block", ["# one", "  # two", "#three"]), ("comment then blank", ["#c", "", "# d"])):
+            for at in sorted(set((0, 1, len(lines) // 2, len(lines)))):
+                new = list(lines[:at]) + list(ins) + list(lines[at:])
+                # base line numbers: header is line 1, program line k (0-based) is line k + 2
+                lm = {k + 2: (k + 2 + (len(ins) if k >= at else 0)) for k in range(len(lines))}
+                b.append(sc(name, base, layout_render(new), "%s inserted before program line %d" % (what, at + 1), lm))
+        if name in ("literals", "control", "calls"):
+            for how in ("hex", "HEX", "hex0", "bin", "BIN", "bin0", "oct"):
+                b.append(sc(name, base, layout_render([[_radix(t, how) for t in l] for l in lines]), "integer literals as %s" % how))
+    return b
+
+
+_layout_base_cache = {}
+
+
+def layout_judge(obs, sc):
+    """variant (obs) against the native run of the base program: same verdicts, same rows, lines shifted by the map."""
+    from .. import replay as _rp
+    base_src = sc.expect["base"]
+    key = (base_src, tuple(sorted(obs)))
+    if key not in _layout_base_cache:
+        _layout_base_cache[key] = _rp.run(Scenario(base_src, sc.signals, default_answer=sc.default_answer, max_rows=sc.max_rows),
+                                          profiles=tuple(sorted(obs)))
+    base = _layout_base_cache[key]
+    lm = sc.expect.get("line_map")
+    for p, o in obs.items():
+        if o.panics:
+            return "%s build panics: %s (%s)" % (p, o.panics[0][1][:160], sc.note)
+        bo = base[p]
+        if bo.panics:
+            return "%s build panics on the base program: %s" % (p, bo.panics[0][1][:160])
+        for stg in ("PARSE", "BIND", "NEW"):
+            a, c = bo.stage.get(stg, ("missing",))[0], o.stage.get(stg, ("missing",))[0]
+            if a != c:
+                return "%s build: %s is '%s' for the base layout and '%s' for the variant (%s)" % (p, stg, a, c, sc.note)
+        ia = [(i[0], i[1] if i[0] == "err" else None) for i in bo.items]
+        ic = [(i[0], i[1] if i[0] == "err" else None) for i in o.items]
+        if ia != ic:
+            return "%s build: item sequence differs: base %s, variant %s (%s)" % (p, ia[:12], ic[:12], sc.note)
+        for k, (ra, rc) in enumerate(zip(bo.rows, o.rows)):
+            if (ra["inputs"], ra["outputs"], ra["failing"]) != (rc["inputs"], rc["outputs"], rc["failing"]):
+                return "%s build: row %d differs: base %s / %s, variant %s / %s (%s)" % (
+                    p, k, ra["inputs"], ra["outputs"], rc["inputs"], rc["outputs"], sc.note)
+            want = lm.get(ra["line"], None) if lm else ra["line"]
+            if want is None:
+                want = ra["line"]
+            if rc["line"] != want:
+                return "%s build: row %d reports line %d, expected %d (base line %d; %s)" % (p, k, rc["line"], want, ra["line"], sc.note)
+    return None
